@@ -456,6 +456,22 @@ fn select_n_nodes(
         dc_count -= 1;
     }
 
+    // The even distribution above can come up short when a cycler happens to hand back the
+    // local node or a node which has already been selected. Top up from whatever other nodes
+    // are left, so the level is only rejected when there genuinely are not enough live nodes.
+    if selected_nodes.len() < n {
+        'top_up: for cycler in data_centers.values() {
+            for node in cycler.get_nodes().iter().copied() {
+                if selected_nodes.len() >= n {
+                    break 'top_up;
+                }
+                if node != local_node && !selected_nodes.contains(&node) {
+                    selected_nodes.push(node);
+                }
+            }
+        }
+    }
+
     if selected_nodes.len() >= n {
         debug!(selected_node = ?selected_nodes, "Nodes have been selected for the given parameters.");
         Ok(selected_nodes)
